@@ -66,7 +66,7 @@ func has(l []string, s string) bool {
 	return false
 }
 
-var scalarFamilies = []string{"quad", "sepconv", "quartic", "logistic", "rosen"}
+var scalarFamilies = []string{"quad", "sepconv", "quartic", "logistic", "rosen", "bowl", "xlogx"}
 
 // the routines that have an iteration cap or give up with an error also get the badly scaled quadratics with an
 // epsilon that float64 cannot reach (gradient descent has neither: it would never return - property C20)
@@ -79,18 +79,34 @@ var routines = []*routine{
 	{name: "newton.min", families: hardFamilies, variants: []string{"None", "LDL", "Eigenvalue"}, hookKind: "gy", iterBy: "eval", consOpt: true, hookOpt: true, smallCap: 3, bigCap: 25, epsDiv: 1, run: runNewtonMin},
 	{name: "rprop", families: hardFamilies, variants: []string{"1.2/0.5", "2/0.1", "1.5/0.8"}, hookKind: "gy", iterBy: "eval", consOpt: true, hookOpt: true, smallCap: 3, bigCap: 300, epsDiv: 1, run: runRprop},
 	{name: "rprop.gradient", families: hardFamilies, variants: []string{"1.2/0.5", "2/0.1", "1.5/0.8"}, hookKind: "g", iterBy: "eval", consOpt: true, hookOpt: true, smallCap: 3, bigCap: 300, epsDiv: 1, run: runRpropGradient},
-	{name: "gradientDescent", families: []string{"quad", "sepconv", "logistic"}, variants: []string{"0.5", "1", "1.5"}, hookKind: "gy", iterBy: "eval", hookOpt: true, epsDiv: 1, run: runGradientDescent},
+	{name: "gradientDescent", families: []string{"quad", "sepconv", "logistic", "bowl", "xlogx"}, variants: []string{"0.5", "1", "1.5"}, hookKind: "gy", iterBy: "eval", hookOpt: true, epsDiv: 1, run: runGradientDescent},
 	{name: "adam", families: scalarFamilies, variants: []string{"0.05", "0.3"}, hookKind: "gy", iterBy: "eval", consOpt: true, hookOpt: true, smallCap: 3, bigCap: 300, epsDiv: 3, run: runAdam},
 	{name: "adam.gradient", families: scalarFamilies, variants: []string{""}, hookKind: "g", iterBy: "eval", consOpt: true, hookOpt: true, smallCap: 3, bigCap: 200, epsDiv: 3, run: runAdamGradient},
 	{name: "saga", families: []string{"quad"}, variants: []string{"dense1", "dense2", "sparse1", "sparse2"}, hookKind: "args", iterBy: "eval", hookOpt: true, smallCap: 3, bigCap: 300, epsDiv: 1, run: runSaga},
 	{name: "lineSearch", families: append(append([]string{}, scalarFamilies...), "line1d"), variants: []string{"1", "0.1", "10", "1/short", "0.1/short", "poly"}, hookKind: "gy", iterBy: "eval", consOpt: true, hookOpt: true, smallCap: 3, bigCap: 20, epsDiv: 1, run: runLineSearch},
 }
 
-func mkVec(x []float64, rng *rand.Rand) Vector {
-	if rng.Intn(2) == 0 {
-		return NewDenseFloat64Vector(append([]float64{}, x...))
+// startTypes: the storage types of the start vector printed by the spec (options record)
+var startTypes = []string{"float64", "real64"}
+
+var scalarTypeOf = map[string]ScalarType{"float64": Float64Type, "real64": Real64Type, "float32": Float32Type, "real32": Real32Type,
+	"int": IntType, "int64": Int64Type, "int32": Int32Type, "int16": Int16Type, "int8": Int8Type}
+
+// mkVec stores the start point in one of the printed storage types (the start points are integer vectors, so
+// every element type holds them exactly); the chosen type is recorded in the run.
+func mkVec(x []float64, rng *rand.Rand, r *rec) Vector {
+	typ := startTypes[rng.Intn(len(startTypes))]
+	r.xtype = typ
+	for _, v := range x {
+		if v != math.Trunc(v) || math.Abs(v) > 100 {
+			typ, r.xtype = "float64", "float64" // (not an integer vector)
+		}
 	}
-	return NewDenseReal64Vector(append([]float64{}, x...))
+	dense := NewDenseFloat64Vector(append([]float64{}, x...))
+	if strings.HasPrefix(typ, "sparse_") {
+		return AsSparseVector(scalarTypeOf[strings.TrimPrefix(typ, "sparse_")], dense)
+	}
+	return AsDenseVector(scalarTypeOf[typ], dense)
 }
 
 func vecOrNil(v ConstVector) []float64 {
@@ -122,11 +138,11 @@ func (pr *problem) gradStop(pt []float64) bool {
 	if pt == nil {
 		return false
 	}
-	_, g := valGrad(pr.f, pt)
-	if g == nil {
-		return false
+	y, g := valGrad(pr.f, pt)
+	if g == nil || math.IsNaN(y) {
+		return false // a point outside the objective's domain meets no stopping condition
 	}
-	return norm2(g) < pr.eps*(1+1e-9)
+	return norm2(g) < pr.eps*(1+1e-9) // (false for a NaN gradient)
 }
 
 func (pr *problem) consVec(r *rec) func(x Vector) bool {
@@ -139,7 +155,7 @@ func (pr *problem) consConstVec(r *rec) func(x ConstVector) bool {
 /* ---------------------------------------------------------------- BFGS */
 
 func runBfgs(pr *problem, variant string, o combo, maxit int, rng *rand.Rand, r *rec) result {
-	x0 := mkVec(pr.x0, rng)
+	x0 := mkVec(pr.x0, rng, r)
 	args := []interface{}{bfgs.Epsilon{Value: pr.eps}}
 	if maxit >= 0 {
 		args = append(args, bfgs.MaxIterations{Value: maxit})
@@ -175,7 +191,7 @@ func newtonArgs(pr *problem, variant string, maxit int, r *rec) []interface{} {
 }
 
 func runNewtonRoot(pr *problem, variant string, o combo, maxit int, rng *rand.Rand, r *rec) result {
-	x0 := NewDenseFloat64Vector(append([]float64{}, pr.x0...))
+	x0 := mkVec(pr.x0, rng, r)
 	args := newtonArgs(pr, variant, maxit, r)
 	if o.HookStop >= 0 {
 		args = append(args, newton.HookRoot{Value: func(x ConstVector, J ConstMatrix, y ConstVector) bool {
@@ -194,7 +210,7 @@ func runNewtonRoot(pr *problem, variant string, o combo, maxit int, rng *rand.Ra
 }
 
 func runNewtonCrit(pr *problem, variant string, o combo, maxit int, rng *rand.Rand, r *rec) result {
-	x0 := NewDenseFloat64Vector(append([]float64{}, pr.x0...))
+	x0 := mkVec(pr.x0, rng, r)
 	args := newtonArgs(pr, variant, maxit, r)
 	if o.HookStop >= 0 {
 		// RunCrit: the hook receives (x, Hessian, gradient); there is no function value
@@ -212,7 +228,7 @@ func runNewtonCrit(pr *problem, variant string, o combo, maxit int, rng *rand.Ra
 }
 
 func runNewtonMin(pr *problem, variant string, o combo, maxit int, rng *rand.Rand, r *rec) result {
-	x0 := NewDenseFloat64Vector(append([]float64{}, pr.x0...))
+	x0 := mkVec(pr.x0, rng, r)
 	args := newtonArgs(pr, variant, maxit, r)
 	if o.HookStop >= 0 {
 		args = append(args, newton.HookMin{Value: func(x, g ConstVector, H ConstMatrix, y ConstScalar) bool {
@@ -241,7 +257,7 @@ func etaOf(variant string) []float64 {
 }
 
 func runRprop(pr *problem, variant string, o combo, maxit int, rng *rand.Rand, r *rec) result {
-	x0 := mkVec(pr.x0, rng)
+	x0 := mkVec(pr.x0, rng, r)
 	step := []float64{0.01, 0.1, 1}[rng.Intn(3)]
 	args := []interface{}{rprop.Epsilon{Value: pr.eps}}
 	if maxit >= 0 {
@@ -311,7 +327,7 @@ func runRpropGradient(pr *problem, variant string, o combo, maxit int, rng *rand
 /* ---------------------------------------------------- gradient descent */
 
 func runGradientDescent(pr *problem, variant string, o combo, maxit int, rng *rand.Rand, r *rec) result {
-	x0 := mkVec(pr.x0, rng)
+	x0 := mkVec(pr.x0, rng, r)
 	// admissible step sizes: step < 2/L with L <= sqrt(lip2) (printed by TLC)
 	frac := map[string]float64{"0.5": 0.5, "1": 1, "1.5": 1.5}[variant]
 	step := frac / math.Sqrt(pr.c.Lip2.f())
@@ -334,7 +350,7 @@ func runGradientDescent(pr *problem, variant string, o combo, maxit int, rng *ra
 /* ---------------------------------------------------------------- Adam */
 
 func runAdam(pr *problem, variant string, o combo, maxit int, rng *rand.Rand, r *rec) result {
-	x0 := mkVec(pr.x0, rng)
+	x0 := mkVec(pr.x0, rng, r)
 	step := map[string]float64{"0.05": 0.05, "0.3": 0.3}[variant]
 	args := []interface{}{adam.Epsilon{Value: pr.eps}, adam.StepSize{Value: step}}
 	if maxit >= 0 {
@@ -461,7 +477,7 @@ func runSaga(pr *problem, variant string, o combo, maxit int, rng *rand.Rand, r 
 			})
 		}
 	}
-	x0 := mkVec(pr.x0, rng)
+	x0 := mkVec(pr.x0, rng, r)
 	args := []interface{}{saga.Epsilon{Value: pr.eps}, saga.Gamma{Value: gamma}, saga.Seed{Value: seed}}
 	if maxit >= 0 {
 		args = append(args, saga.MaxIterations{Value: maxit})
